@@ -225,7 +225,7 @@ def generic_replay(ctx, path):
         print("(no executable cases recorded: the replay names the obligation that no longer checks)")
         return 0
     h = Harness("replay", hz["features"], prelude=hz.get("prelude", ""), shards=1,
-                default_features=hz.get("default_features", False))
+                default_features=hz.get("default_features", False), extra_deps=hz.get("extra_deps", ""))
     cases = []
     for k, c in enumerate(hz["cases"]):
         s = h.slot(c["slot_body"])
@@ -241,5 +241,7 @@ def generic_replay(ctx, path):
         i, m = res.get(f"r{k}"), mres.get(f"r{k}")
         print(f"case {k}: args={c['args']} implementation={i} model={m} expected={c.get('expected')}")
         if c.get("model") and i != m:
+            rc = 1
+        if i in (None, "PANIC"):
             rc = 1
     return rc
